@@ -37,6 +37,7 @@ type Profile struct {
 	NoBindFailures                 bool // the binder model never fails a request
 	Fill                           bool // small nodes and many running workloads: clusters are (nearly) full
 	PPool                          int  // the scheduler is restricted to a node pool; nodes/pods carry pool labels
+	Saturated                      bool // idle GPUs are filled with running filler workloads (see Saturate)
 	Contention                     bool // GPUs are the bottleneck: GPU nodes, GPU workloads, meaningful GPU quotas
 }
 
@@ -130,6 +131,9 @@ func GenWorld(t *rapid.T, pf Profile) *World {
 		}
 	}
 	genGroups(t, pf, w)
+	if pf.Saturated {
+		Saturate(t, w, pf)
+	}
 	n := between(t, pf.MinCycles, pf.MaxCycles, "cycles")
 	for i := 0; i < n; i++ {
 		sc := CycleScript{BindMode: pickInt(t, "bindMode", 0, 0, 0, 2, 1), KeepRequests: chance(t, 5, "keepRequests"),
@@ -660,4 +664,73 @@ func genGroups(t *rapid.T, pf Profile, w *World) {
 		}
 		w.Groups = append(w.Groups, g)
 	}
+}
+
+// Saturate fills the GPUs the generated world leaves idle with running one-GPU filler workloads spread over
+// the leaf queues (preemptible, priority "train", started long ago), so that pending workloads can only be
+// placed by reclaiming, preempting or consolidating. Queue GPU limits are respected.
+func Saturate(t *rapid.T, w *World, pf Profile) int {
+	pl := newPlacer(w)
+	for gi := range w.Groups {
+		g := &w.Groups[gi]
+		for pi := range g.Pods {
+			p := &g.Pods[pi]
+			if p.State == Running || p.State == Terminating || p.State == Binding || p.State == BoundP {
+				req := PodRequest(BuildPod(g, p, stubNow))
+				if u, ok := pl.use[p.Node]; ok {
+					u.Add(p.Name, req, p.Groups, false, pl.caps[p.Node])
+				}
+			}
+		}
+	}
+	tree := w.QueueTree()
+	qGPU := map[string]float64{}
+	wls := w.Workloads()
+	for gi := range w.Groups {
+		g := &w.Groups[gi]
+		for pi := range g.Pods {
+			p := &g.Pods[pi]
+			if p.State == Running || p.State == Binding || p.State == BoundP {
+				ch := Charge(PodRequest(BuildPod(g, p, stubNow)), pl.caps[p.Node])
+				for _, q := range Chain(tree, wls[g.Name].Queue) {
+					qGPU[q.Name] += ch[RGPU]
+				}
+			}
+		}
+	}
+	leaves := w.LeafQueues()
+	added := 0
+	for _, nn := range pl.order {
+		c, u := pl.caps[nn], pl.use[nn]
+		if pl.nodeModel(nn).MigStrategy == "mixed" || pl.nodeModel(nn).NotReady {
+			continue
+		}
+		free := c.GPUs - u.WholeGPUs - int64(len(u.Groups))
+		for k := int64(0); k < free; k++ {
+			if u.CPU+100 > c.CPU || u.Pods+1 > c.Pods || !chance(t, 9, "fillThisGpu") {
+				continue
+			}
+			queue := leaves[uniform(t, len(leaves), "fillQueue")]
+			ok := true
+			for _, q := range Chain(tree, queue) {
+				if q.Limit[RGPU] >= 0 && qGPU[q.Name]+1 > q.Limit[RGPU] {
+					ok = false
+				}
+			}
+			if !ok {
+				continue
+			}
+			for _, q := range Chain(tree, queue) {
+				qGPU[q.Name]++
+			}
+			name := fmt.Sprintf("fill%d", added)
+			g := Group{Name: name, Queue: queue, PriorityClass: "train", Preemptibility: "preemptible", MinMember: 1,
+				CreatedMin: 700 + added, LastStartMin: pickInt(t, "fillStart", 30, 240, 1000),
+				Pods: []Pod{{Name: name + "-p0", CPU: 100, MemMB: 64, GPUs: 1, State: Running, Node: nn, CreatedMin: 700 + added}}}
+			w.Groups = append(w.Groups, g)
+			u.Add(name+"-p0", Request{CPU: 100, Mem: 64000000, GPUs: 1}, nil, false, c)
+			added++
+		}
+	}
+	return added
 }
